@@ -40,6 +40,7 @@ import (
 	"sort"
 	"strings"
 	"sync"
+	"sync/atomic"
 	"time"
 
 	envoy_auth "github.com/envoyproxy/go-control-plane/envoy/service/auth/v3"
@@ -53,7 +54,6 @@ import (
 	"github.com/dadrus/heimdall/internal/handler/decision"
 	envoy_extauth "github.com/dadrus/heimdall/internal/handler/envoyextauth/grpcv3"
 	"github.com/dadrus/heimdall/internal/handler/proxy"
-	"github.com/dadrus/heimdall/internal/x/testsupport"
 )
 
 // Mode selects the entry point.
@@ -224,6 +224,67 @@ func PrepareConfig(mode Mode, cfgYAML, rulesPath string, svcPort, mgmtPort int) 
 	return string(out), err
 }
 
+// ---------------------------------------------------------------- ports
+//
+// heimdall binds its service and management ports itself and calls Fatal (= os.Exit: the whole driver dies and the
+// check reports "driver failed") when a port is taken.  testsupport.GetFreePort asks the OS for an EPHEMERAL port and
+// closes it again: until heimdall binds it, any process on the machine may be given the same number - as the local
+// port of an outgoing connection or by another GetFreePort call (seen under parallel load: "bind: address already in
+// use" on a port handed out a moment ago).  Therefore:
+//   - a port that nobody has to know (the management service in every mode, unless ManagementURL is used) is
+//     configured as 0: heimdall's own Listen picks a free one atomically, no window at all;
+//   - a port the harness must know (Start: the service address) is taken from OUTSIDE the ephemeral range
+//     (/proc/sys/net/ipv4/ip_local_port_range is 32768-60999 here), from a slice that depends on the process id, in
+//     sequence, and probe-bound right before use: the OS never hands such a port to anybody by itself, so only
+//     another harness process that landed on the same slice could take it, and then the probe fails and the next
+//     candidate is tried (up to portTries candidates, with a short pause).
+// A genuine startup failure (bad configuration, unloadable rules, ...) is not affected: it still comes back as the
+// error of fx.New / app.Start.
+
+const (
+	portLow   = 20000
+	portHigh  = 32000 // exclusive; below the ephemeral range
+	portTries = 5
+)
+
+var portSeq atomic.Uint32 //nolint:gochecknoglobals
+
+// freePort returns a port on 127.0.0.1 outside the ephemeral range that could be bound a moment ago.
+func freePort() (int, error) {
+	const slice = 200
+
+	slices := (portHigh - portLow) / slice
+	base := portLow + (os.Getpid()%slices)*slice
+
+	var last error
+
+	for try := 0; try < portTries*4; try++ {
+		n := int(portSeq.Add(1))
+		port := base + n%slice
+
+		if n/slice > 0 { // the own slice is used up once: move on through the whole range
+			port = portLow + (base-portLow+n)%(portHigh-portLow)
+		}
+
+		ln, err := net.Listen("tcp", fmt.Sprintf("127.0.0.1:%d", port))
+		if err != nil {
+			last = err
+
+			if try%4 == 3 {
+				time.Sleep(20 * time.Millisecond)
+			}
+
+			continue
+		}
+
+		_ = ln.Close()
+
+		return port, nil
+	}
+
+	return 0, fmt.Errorf("assembly: no free port in %d-%d after %d candidates: %w", portLow, portHigh, portTries*4, last)
+}
+
 // Start builds and starts the application for the given mode.
 func Start(mode Mode, cfgYAML, rulesYAML string) (*App, error) {
 	dir, err := os.MkdirTemp("", "hv-assembly-")
@@ -237,12 +298,12 @@ func Start(mode Mode, cfgYAML, rulesYAML string) (*App, error) {
 		return nil, err
 	}
 
-	svcPort, err := testsupport.GetFreePort()
+	svcPort, err := freePort()
 	if err != nil {
 		return fail(err)
 	}
 
-	mgmtPort, err := testsupport.GetFreePort()
+	mgmtPort, err := freePort() // ManagementURL is handed out, so the number must be known
 	if err != nil {
 		return fail(err)
 	}
